@@ -12,7 +12,8 @@ RULE = ("comparable types (all comparable leaves incl. key_hash/key of four curv
         "pairs and triples of values generated near each other (one component changed, at any position) x sets/maps "
         "built from 2..6 such values. Oracle: COMPARE == reference sign (exact; consistency only for P-256 keys of "
         "different parity, mixed-length signatures and default-vs-lower entrypoint); antisymmetry and transitivity "
-        "through the implementation; a set/map literal sorted by the reference order is accepted and keeps that order, "
+        "through the implementation; the same literals compared as plain strings before / after in the same process keep their own "
+        "(string) order; a set/map literal sorted by the reference order is accepted and keeps that order, "
         "UPDATE-insertion in any order yields it, unsorted or duplicate literals are rejected. Non-trivial: the values "
         "differ and, for composite types, the first differing component is not the last one. Distinct = distinct case.")
 
@@ -61,9 +62,41 @@ def _blame(t, a, b):
     return p
 
 
+STRINGLY = ("address", "key", "key_hash", "signature", "chain_id", "timestamp")
+
+
+def _stringly(t):
+    """t with every leaf whose literals are written as strings replaced by `string`"""
+    if t["prim"] in STRINGLY:
+        return rv.T("string")
+    if rv.targs(t):
+        return rv.T(t["prim"], *[_stringly(x) for x in rv.targs(t)])
+    return t
+
+
+def _as_strings(case):
+    """The same two literals compared at the type where the domain leaves are plain strings (in the same process: nothing learnt
+    about a text at one type may be reused at another type)."""
+    t = case["t"]
+    ts = _stringly(t)
+    if ts == t:
+        return
+    try:
+        sa, sb = rv.from_micheline(ts, case["a"]), rv.from_micheline(ts, case["b"])
+    except rv.Malformed:
+        return  # e.g. a timestamp written as an integer
+    want = rv.compare(ts, sa, sb)
+    got = _cmp_impl(ts, sa, sb, case, case["a"], case["b"])
+    if got != want:
+        raise Violation("COMPARE %s (the literals of a %s comparison in the same process, read as strings): a=%s b=%s -> %d, Tezos order "
+                        "gives %d" % (_ts(ts), _ts(t), case["a"], case["b"], got, want), case, "wrong-sign:as-strings")
+
+
 def check_pair(case):
     t, a, b = case["t"], _dec(case["a"]), _dec(case["b"])
     want = rv.compare(t, a, b)
+    if case.get("alt") == "before":
+        _as_strings(case)
     got = _cmp_impl(t, a, b, case, case["a"], case["b"])
     rev = _cmp_impl(t, b, a, case, case["b"], case["a"])
     if want is not rv.UNCONSTRAINED and got != want:
@@ -74,6 +107,12 @@ def check_pair(case):
             _ts(t), got, rev, rv.to_micheline(t, a), rv.to_micheline(t, b)), case, "antisymmetry:" + _blame(t, a, b))
     if _cmp_impl(t, a, a, case) != 0:
         raise Violation("COMPARE a a != 0 on %s" % _ts(t), case, "reflexive")
+    if case.get("alt") == "after":
+        _as_strings(case)
+        again = _cmp_impl(t, a, b, case, case["a"], case["b"])
+        if again != got:
+            raise Violation("COMPARE %s a=%s b=%s gave %d, and %d after the same literals had been compared as strings" % (
+                _ts(t), case["a"], case["b"], got, again), case, "unstable-after-strings")
     return want
 
 
@@ -219,7 +258,8 @@ def pair_cases(draw, depth):
     t = draw(_ctypes(depth))
     a = draw(gt.values(t))
     b = draw(gt.near(t, a)) if draw(st.integers(0, 4)) else draw(gt.values(t))
-    return {"mode": "pair", "t": t, "a": draw(respell(_enc(t, a))), "b": draw(respell(_enc(t, b)))}
+    alt = draw(st.sampled_from([None, "before", "after"])) if _stringly(t) != t else None
+    return {"mode": "pair", "t": t, "a": draw(respell(_enc(t, a))), "b": draw(respell(_enc(t, b))), "alt": alt}
 
 
 @st.composite
